@@ -1,0 +1,26 @@
+//go:build verif
+
+package b6
+
+import "diagonal.works/b6/verifrt"
+
+// Lemmas of the b6vc verifier (/verif). Parameters are universally
+// quantified; the bodies call the real functions.
+
+// C10: tile IDs (5 bits of zoom, then y, then x) up to zoom 29.
+func verifLemma_C10_tile_id(x uint, y uint, z uint) {
+	verifrt.Assume(z <= 29)
+	verifrt.Assume(x < 1<<z && y < 1<<z)
+	gx, gy, gz := TileIDFromXYZ(x, y, z).ToXYZ()
+	verifrt.Assert(gx == x, "x")
+	verifrt.Assert(gy == y, "y")
+	verifrt.Assert(gz == z, "z")
+}
+
+// C10: by construction the ID of a tile's parent is smaller than the tile's ID.
+func verifLemma_C10_tile_parent_smaller(x uint, y uint, z uint) {
+	verifrt.Assume(z >= 1 && z <= 29)
+	verifrt.Assume(x < 1<<z && y < 1<<z)
+	t := TileIDFromXYZ(x, y, z)
+	verifrt.Assert(t.Parent() < t, "parent-smaller")
+}
